@@ -156,14 +156,16 @@ class Check:
             d = os.path.join(REPLAYS, self.pid)
             os.makedirs(d, exist_ok=True)
             seen = set()
+            per_clause = {}
             for clause, detail in new:
                 blob = json.dumps({"property": self.pid, "clause": clause, "detail": detail}, sort_keys=True, default=str)
                 h = hashlib.sha1(blob.encode()).hexdigest()[:12]
                 if h in seen:
                     continue
+                per_clause[clause] = per_clause.get(clause, 0) + 1
+                if per_clause[clause] > 3 or len(seen) >= 15:
+                    continue
                 seen.add(h)
-                if len(seen) > 5:
-                    break
                 path = os.path.join(d, f"{clause}-{h}.json")
                 with open(path, "w") as fh:
                     fh.write(blob)
